@@ -164,7 +164,14 @@ int main(int argc, char** argv) {
         R.eval(kase, mcx::fnvs(kase), false);
         if (rc == 1) R.violate("C20/missing-config/run-anyway", kase, "parse() returned true for an unusable config path");
     }
-    R.bound_done("malformed values x typed options x sources; unknown names; unusable config paths");
+    // ... and the plain invocation: no --config at all and no default.cfg in the working directory is NOT an error (the fall-back file is optional)
+    { std::string kase = "config-path (none given, no default.cfg present)";
+      if (R.mine(kase)) { remove("default.cfg"); ProgramOptions a; std::vector<std::string> av = {"inovesa", "--GridSize", "64"}; std::vector<char*> cv; for (auto& s : av) cv.push_back(const_cast<char*>(s.c_str()));
+        int rc; try { rc = a.parse((int)cv.size(), cv.data()) ? 1 : 0; } catch (...) { rc = -1; }
+        R.eval(kase, mcx::fnvs(kase), false);
+        if (rc != 1) R.violate("C20/no-config-given/refused", kase, "parse() returned " + std::to_string(rc) + " for an invocation without --config in a directory without default.cfg");
+        else if (a.getGridSize() != 64) R.violate("C20/no-config-given/value-lost", kase, "GridSize " + std::to_string(a.getGridSize())); } }
+    R.bound_done("malformed values x typed options x sources; unknown names; unusable config paths; no config given at all");
 done:
     return R.finish();
 }
